@@ -138,7 +138,7 @@ theorem insDescend_growth (time : Int) (e : Ent V) (c0 pk : Nat) (hc0 : 8 ≤ c0
     ∀ (k : Ctx (Ent V)) (t : T (Ent V)) (p : Pool) (tr : List (Ev V)),
     WF (⟨plug k t, p⟩ : St V) → GrowthP c0 pk (plug k t).size p → t.size < fuel →
     ∀ t' p' tr', insDescend time e fuel k t p tr = some (t', p', tr') →
-      GrowthP c0 (max pk t'.size) t'.size p' := by
+      GrowthP c0 (max pk t'.size) t'.size p' ∧ t'.size ≤ pk + 1 := by
   induction fuel with
   | zero => intro k t p tr _ _ h; omega
   | succ fuel ih =>
@@ -150,7 +150,7 @@ theorem insDescend_growth (time : Int) (e : Ent V) (c0 pk : Nat) (hc0 : 8 ≤ c0
       rw [linkNew_size]
       have hcount := hw.slots.count
       simp only at hcount
-      exact g.alloc hc0 hcount
+      exact ⟨g.alloc hc0 hcount, by have := g.size_le; omega⟩
     | node c l s x r =>
       simp only [insDescend] at h
       split at h
@@ -203,7 +203,7 @@ theorem expireAll_growth (time : Int) (c0 pk : Nat) (hc0 : 8 ≤ c0) (slots : Li
 /-- every operation of the expiring tree keeps the growth invariant, the peak being taken after the operation -/
 theorem St.kstep_growth (st : St V) (op : KOp V) (c0 pk : Nat) (hc0 : 8 ≤ c0) (hw : WF st) (g : Growth c0 pk st)
     {st' : St V} {r : Option V} {vals : List V} {tr : List (Ev V)} (hs : st.kstep op = some (st', r, vals, tr)) :
-    Growth c0 (max pk st'.tree.size) st' := by
+    Growth c0 (max pk st'.tree.size) st' ∧ st'.tree.size ≤ pk + 1 := by
   cases op with
   | insert e t =>
     simp only [St.kstep, Option.map_eq_some_iff] at hs
@@ -222,7 +222,8 @@ theorem St.kstep_growth (st : St V) (op : KOp V) (c0 pk : Nat) (hc0 : 8 ≤ c0) 
       obtain ⟨t', p', tr'⟩ := q
       simp only [hi, Option.some.injEq, Prod.mk.injEq] at h1
       obtain ⟨rfl, _⟩ := h1
-      exact (insDescend_growth t e c0 pk hc0 (f.size + 1) k f p tr1 hx.wf g1 (by omega) _ _ _ hi).toG
+      have := insDescend_growth t e c0 pk hc0 (f.size + 1) k f p tr1 hx.wf g1 (by omega) _ _ _ hi
+      exact ⟨this.1.toG, this.2⟩
   | query mode t f =>
     simp only [St.kstep, Option.map_eq_some_iff] at hs
     obtain ⟨⟨s, r0, tr0⟩, h1, h2⟩ := hs
@@ -241,7 +242,7 @@ theorem St.kstep_growth (st : St V) (op : KOp V) (c0 pk : Nat) (hc0 : 8 ≤ c0) 
       simp only [hi, Option.some.injEq, Prod.mk.injEq] at h1
       obtain ⟨rfl, _⟩ := h1
       have := search_growth mode t f c0 pk hc0 (ft.size + 1) k ft p none tr1 hx.wf g1 (by omega) _ _ _ _ hi
-      exact (GrowthP.toG (st := ⟨t', p'⟩) this).mono (by omega)
+      exact ⟨(GrowthP.toG (st := ⟨t', p'⟩) this).mono (by omega), by have := this.size_le; show t'.size ≤ pk + 1; omega⟩
   | exportAt t =>
     simp only [St.kstep, Option.map_eq_some_iff] at hs
     obtain ⟨⟨s, v0, c1, tr0⟩, h1, h2⟩ := hs
@@ -256,14 +257,14 @@ theorem St.kstep_growth (st : St V) (op : KOp V) (c0 pk : Nat) (hc0 : 8 ≤ c0) 
       simp only [Option.some.injEq, Prod.mk.injEq] at h1
       obtain ⟨rfl, _⟩ := h1
       have := expireAll_growth t c0 pk hc0 _ st.tree st.pool [] (by simpa using hw) g.toP _ _ _ hi
-      exact (GrowthP.toG (st := ⟨t', p'⟩) this).mono (by omega)
+      exact ⟨(GrowthP.toG (st := ⟨t', p'⟩) this).mono (by omega), by have := this.size_le; show t'.size ≤ pk + 1; omega⟩
   | clear =>
     simp only [St.kstep, Option.some.injEq, Prod.mk.injEq] at hs
     obtain ⟨rfl, _⟩ := hs
     obtain ⟨gs, gb, gc, gbuf⟩ := g
     have hcap := Pool.freeAll_cap st.tree.bfs st.tree.slots st.pool (max c0 (2 * st.pool.bufLen))
       hw.slots.1 [] (by simpa using (T.bfs_perm st.tree).symm) gc (by omega) (by omega)
-    refine ⟨by simp [St.clear], by simp only [St.clear, Pool.freeAll]; omega, ?_, ?_⟩
+    refine ⟨⟨by simp [St.clear], by simp only [St.clear, Pool.freeAll]; omega, ?_, ?_⟩, by simp [St.clear]⟩
     · simp only [St.clear, Pool.freeAll]; rw [hcap.2]; exact hcap.1
     · simp only [St.clear, Pool.freeAll]; omega
 
